@@ -105,6 +105,6 @@ func main() {
 	// file / snapshot / drop, LiteFS's own checkpoint and recovery, DB.Drop, a crash during DB.Open itself
 	runApplyCrash(rep, args)
 	// failure paths (spec/Faults.tla): every call of the operation through the OS interface fails once
-	faults.Run(rep, args, faults.Select{Ops: []string{"rb_commit", "wal_commit", "import", "drop", "replica_apply", "replica_snapshot", "open"}, Monitors: []string{"restart", "effect", "replica-restart"}, Kinds: faults.LocalKinds})
+	faults.Run(rep, args, faults.Select{Ops: []string{"rb_commit", "wal_commit", "import", "drop", "replica_apply", "replica_snapshot", "open", "role_change"}, Monitors: []string{"restart", "effect", "replica-restart"}, Kinds: faults.LocalKinds})
 	rep.Finish()
 }
